@@ -448,6 +448,9 @@ fn run_property(prop: &str, ctx: &mut Ctx) {
             grid.truncate(if th { 1000 } else { 1000 });
             ctx.text_grid("C04.total.public_api", "wrap, fill, fill_inplace, unfill, refill, indent, dedent, wrap_columns, display_width, find_words, split_words, break_words and both algorithms return (no panic, no hang, no overflow error)",
                 A_ADVERSARIAL, l(2, 3), grid.clone(), vec![0, 1, 2, 7, usize::MAX], c04_total);
+            ctx.strings("A4.std_models", "the std behaviour the Verus side-cars assume of their transparent wrappers (lines, split with positions, split_terminator, trim*, find, match_indices, char_indices, classifiers)",
+                &[" ", "a", "\n", "\r", "-", "é", "\t", "\u{3000}"], l(6, 7), vec![0], vec![""], a4_std_models);
+            ctx.strings_random("A4.std_models.random", "same (long random strings, sampled)", false, 30, if th { 1_000_000 } else { 40_000 }, vec![0], vec![""], a4_std_models);
             ctx.text_random("C04.total.public_api.random", "same, long random texts", A_ADVERSARIAL, 30, if th { 2_000_000 } else { 60_000 }, grid, c04_total);
             frag_random(ctx, "C04.total.fragments", "both algorithms return for arbitrary finite f64 fragments", if th { 2_000_000 } else { 60_000 }, 12, true, |c| {
                 let _ = textwrap::wrap_algorithms::wrap_first_fit(&c.frags, &c.widths);
@@ -599,6 +602,7 @@ fn replay(path: &str) -> i32 {
             #[cfg(feature = "full")]
             "A13.linebreaks.shape" => props_words::a13_linebreaks_shape(&StrCase::from_json(case)),
             "C07.dispatch.first_fit" | "C03.dispatch.optimal_fit" => props_frag::dispatch_same(&StrCase::from_json(case)),
+            "A4.std_models" => a4_std_models(&StrCase::from_json(case)),
             "C12.split_words" => props_words::c12_split(&StrCase::from_json(case)),
             "C12.break_apart" => props_words::c12_break(&StrCase::from_json(case)),
             "C13.wrap.ansi_transparent" => props_wrap::c13_ansi(&TextCase::from_json(case)),
